@@ -63,7 +63,7 @@ def run(ctx, chk):
     if not m.ok:
         return
     data = [i for i in m.infos if i['msg_name'] == 'ClockErrorBoundData']
-    chk.floor('C10.L4', 'data-message paths', len(data), 4)
+    chk.floor('C10.L4', 'data-message paths', len(data), 1)
     rows = []
     for i in data:
         leaf, lconds, future, stale, sterm, rest = classify_atoms(i)
